@@ -5,7 +5,7 @@
    `C11_<family>_same_answer : stands_for t1 v -> stands_for t2 v -> f_w t1 args = f_w t2 args`.
 
    Where the two forms are NOT literally equal (the decoder reads the integer `-0` back as the unsigned 0 while the text
-   parser keeps Int64(0); a text input of to_string is returned as it is) the precise relation is stated and the case is
+   parser keeps Int64(0); a text input of to_string that parses is returned as it is, JsonGrammarProofs.parsed_text_is_utf8) the precise relation is stated and the case is
    listed in the comment of the family. *)
 From Coq Require Import List NArith ZArith Bool Lia.
 Import ListNotations.
@@ -814,7 +814,10 @@ Proof.
 Qed.
 
 (* ================================================================ to_string / to_pretty_string *)
-(* A text input is returned as it is (only the empty input becomes "null"), an encoding is rendered: the two outputs
+(* A text input goes through String::from_utf8_lossy (only the empty input becomes "null"): a text that PARSES is valid
+   UTF-8 as a whole (JsonGrammarProofs.parsed_text_is_utf8: the parser checks its strings, everything else is ASCII), so
+   it is returned as it is (to_text_of_parsed_text below); an input that is neither JSONB nor a text that parses has its
+   ill-formed sequences replaced by U+FFFD (to_text_not_jsonb).  An encoding is rendered: the two outputs
    are different texts in general ("-0" / "0", "1e2" / "100.0", white space) but DENOTE THE SAME DOCUMENT: both parse,
    and to values that compare Equal to v.  The rendering of the encoding is read back under the usual hypothesis on
    the float printer (TextRoundtrip.float_reads_back for every float of the decoded document; none needed when the
@@ -825,6 +828,23 @@ Definition same_document (r : list N) (v : value) : Prop := exists v', parse_val
 
 Lemma parse_value_nil : parse_value [] = Err EOther.
 Proof. reflexivity. Qed.
+
+(* every input that is not JSONB, whether it parses or not *)
+Theorem to_text_not_jsonb pf pretty t : is_jsonb t = false ->
+  to_text_w pf pretty t = Ok (match t with [] => NULL_TEXT | _ => lossy t end).
+Proof. intros H. unfold to_text_w. rewrite H. destruct t; reflexivity. Qed.
+(* "a text argument is returned as it is": for EVERY text that parses *)
+Theorem to_text_of_parsed_text pf pretty t v : is_jsonb t = false -> parse_value t = Ok v -> to_text_w pf pretty t = Ok t.
+Proof.
+  intros Ht Hp. rewrite (to_text_not_jsonb pf pretty t Ht).
+  destruct t as [|c t']; [rewrite parse_value_nil in Hp; discriminate Hp|].
+  rewrite (lossy_valid _ (JsonGrammarProofs.parsed_text_is_utf8 _ _ Hp)). reflexivity.
+Qed.
+(* and what is not valid UTF-8 is changed: the model no longer returns such bytes unchanged *)
+Example to_text_lossy_example :
+  (to_string_w [34; 255; 34] = Ok [34; 239; 191; 189; 34]) /\ (to_pretty_string_w [159; 1] = Ok [239; 191; 189; 1]) /\ 
+  (to_string_w [] = Ok NULL_TEXT).
+Proof. vm_compute. repeat split. Qed.
 
 Theorem to_text_forms pf ok pretty t v : (forall b, ok b = true -> TextRoundtrip.float_reads_back pf b) ->
   wfb v = true -> TextRoundtrip.floats_ok ok (normalise v) = true -> stands_for t v ->
@@ -839,7 +859,8 @@ Proof.
       * rewrite <- (cmp_value_eq_l (SerdeProofs.unsign (normalise v)) (normalise v) v (SerdeProofs.unsign_equal _)).
         apply normalise_equal.
   - exists t. split.
-    + unfold to_text_w. rewrite Ht. destruct t; [rewrite parse_value_nil in Hp; discriminate Hp|reflexivity].
+    + unfold to_text_w. rewrite Ht. destruct t as [|c t']; [rewrite parse_value_nil in Hp; discriminate Hp|].
+      rewrite (lossy_valid _ (JsonGrammarProofs.parsed_text_is_utf8 _ _ Hp)). reflexivity.
     + exists v. split; [exact Hp|apply cmp_value_refl].
 Qed.
 Theorem to_string_forms pf ok t v : (forall b, ok b = true -> TextRoundtrip.float_reads_back pf b) ->
